@@ -528,7 +528,7 @@ theorem walkArraySelect_ok : RuleOK .arraySelect { rule := walkArraySelect, guar
             rcases hr with rfl | ⟨kv, hkv, rfl⟩
             · exact ⟨hA.trans F.dsub, F.dty⟩
             · exact ⟨hA.trans (F.psub kv hkv).2, (F.pty kv hkv).2⟩
-          refine ⟨hsub.2, hsub.1.wf, fun I hI hd => ⟨?_, hsub.1.div0 I hd⟩, hsub.1.fv⟩
+          refine Res.of_hyp (hsub.2) (hsub.1.wf) (fun I hI _ => ?_) (fun I _ hd => hsub.1.div0 I hd) (hsub.1.fv)
           rw [← hR, lookup_find I d i hiK (pairs rest) F.keyT, eval_select, eval_arrayValue]
           exact ((F.toAVFacts0.sem hidx I hI).2.1 (eval I i) (eval_hasSort i hiK.1 idx hi I hI)).symm
         · exact hself
@@ -594,7 +594,7 @@ theorem walkArrayStore_ok : RuleOK .arrayStore { rule := walkArrayStore, guard :
             · exact ⟨hiK, hi⟩
             · exact ⟨F.keyT kv hkv', (F.pty kv hkv').1⟩
           obtain ⟨r1, r2, r3, r4⟩ := array_res (hN.trans F.dsub) F.dty hps
-          refine ⟨r1, r2, fun I hI hd => ⟨?_, r3 I hd⟩, r4⟩
+          refine Res.of_hyp (r1) (r2) (fun I hI _ => ?_) (fun I _ hd => r3 I hd) (r4)
           obtain ⟨c1, c2, c3⟩ := array_eval hidx (d := d) hkeys (noDup_dictSet _ i v F.nodup) I hI
           obtain ⟨a1, a2, a3⟩ := F.toAVFacts0.sem hidx I hI
           have hik : (eval I i).hasSort idx = true := eval_hasSort i hiK.1 idx hi I hI
@@ -622,7 +622,7 @@ theorem walkArrayValue_ok : RuleOK .arrayValue { rule := walkArrayValue, guard :
     obtain ⟨_, F⟩ := avFacts hwf hty hidx hk
     rw [dictOf_nodup _ F.nodup]
     obtain ⟨r1, r2, r3, r4⟩ := array_res F.dsub F.dty (fun kv hkv => ⟨F.psub kv hkv, F.pty kv hkv⟩)
-    refine ⟨r1, r2, fun I hI hd => ⟨?_, r3 I hd⟩, r4⟩
+    refine Res.of_hyp (r1) (r2) (fun I hI _ => ?_) (fun I _ hd => r3 I hd) (r4)
     obtain ⟨c1, c2, c3⟩ := array_eval hidx (d := d) (fun kv hkv => ⟨F.keyT kv hkv, (F.pty kv hkv).1⟩) F.nodup I hI
     obtain ⟨a1, a2, a3⟩ := F.toAVFacts0.sem hidx I hI
     rw [eval_arrayValue]
